@@ -465,6 +465,25 @@ namespace
   }
 }
 
+// ------------------------------------------------------------------------------------------------
+// X: scanner-level grammar probe: a markup parser with a declared attribute set that only records what it is given
+// ------------------------------------------------------------------------------------------------
+namespace
+{
+  struct ProbeLog { std::vector<std::map<String, String>> created; };
+  class GrammarProbe : public Xml::MarkupParser
+  {
+  public:
+    std::map<String, bool> decl, child_decl; ProbeLog& log;
+    GrammarProbe(const std::map<String, bool>& d, const std::map<String, bool>& cd, ProbeLog& l) : decl(d), child_decl(cd), log(l) {}
+    virtual bool attribs(std::map<String, bool>& attrs) const override { attrs = decl; return true; }
+    virtual void create(int, const String&, const String&, const std::map<String, String>& attrs, bool) override { log.created.push_back(attrs); }
+    virtual void close(int, const String&) override {}
+    virtual bool content(int, const String&) override { return true; }
+    virtual std::shared_ptr<Xml::MarkupParser> markup(int, const String&, const String&) override { return std::make_shared<GrammarProbe>(child_decl, child_decl, log); }
+  };
+}
+
 int main(int argc, char** argv)
 {
   FEAT::Runtime::ScopeGuard guard(argc, argv);
@@ -474,6 +493,8 @@ int main(int argc, char** argv)
   spec.rule = "cases = (seed file, one fault): T every truncation; B every byte position x byte alphabet (substitution) and every byte deletion; "
     "L every line deleted / duplicated; N every numeric token x {+1,-1,0,-1 literal,2^63,2^32,1e9,non-numeric,junk suffix,1e400}; "
     "S every declared count, dimension, index, type, reference violated one at a time, every element block deleted / duplicated / moved, a comment line (well-formed / unterminated) after every line; "
+    "A every attribute of every markup deleted, every pair of attributes of a markup deleted, all deleted, renamed to an undeclared name sorting before/after (a0,zz,a_,zz_), an undeclared attribute added, given twice -- "
+    "mandatory/optional taken from a table in the harness transcribed from the parser classes' attribs() declarations; X scanner grammar: every declaration of 4 attribute names as absent/optional/mandatory x every given subset; "
     "D2 (thorough) every pair of byte substitutions on the smallest seed; the same T/B/L families on the INI seeds. "
     "A case is non-trivial when the mutated text differs from the seed (hash = seed name + mutated text).";
   spec.bounds_quick = "8 mesh seeds (0.36-1.1 KB: 1D/2D/3D, hypercube/simplex, mesh parts with none/full/parent topology, attribute, Circle/Bezier/Sphere/SurfaceMesh/Extrude charts, partitions) "
@@ -927,6 +948,95 @@ int main(int argc, char** argv)
           }
         }
       }
+      // ---------------------------------------------------------------- A: attributes deleted / renamed / added
+      // Table of the attributes the parser classes declare in their attribs() functions (true = mandatory), transcribed
+      // from kernel/geometry/mesh_file_reader.hpp:203,413,522,609f,721f,872-876,1038f,1116-1119,1224f and
+      // kernel/geometry/atlas/{bezier.hpp:1171-1174,circle.hpp:289-291,extrude.hpp:385-387,sphere.hpp:213f,surface_mesh.hpp:1092f};
+      // parsers that declare nothing (Vertices, Points, Params, Triangles) accept no attribute at all.
+      {
+        static const std::map<std::string, std::map<std::string, bool>> decl = {
+          {"FeatMeshFile", {{"version", true}, {"mesh", false}}},
+          {"Chart", {{"name", true}}},
+          {"Mesh", {{"type", true}, {"size", true}}},
+          {"Vertices", {}}, {"Points", {}}, {"Params", {}}, {"Triangles", {}},
+          {"Topology", {{"dim", true}}},
+          {"Mapping", {{"dim", true}}},
+          {"Attribute", {{"dim", true}, {"name", true}}},
+          {"MeshPart", {{"name", true}, {"parent", true}, {"size", true}, {"topology", true}, {"chart", false}}},
+          {"Partition", {{"size", true}, {"name", false}, {"priority", false}, {"level", false}}},
+          {"Patch", {{"rank", true}, {"size", true}}},
+          {"Circle", {{"radius", true}, {"midpoint", true}, {"domain", false}}},
+          {"Sphere", {{"radius", true}, {"midpoint", true}}},
+          {"Bezier", {{"dim", true}, {"size", true}, {"type", false}, {"orientation", false}}},
+          {"SurfaceMesh", {{"verts", true}, {"trias", true}}},
+          {"Extrude", {{"origin", false}, {"offset", false}, {"angles", false}}}};
+        for(size_t li = 0; li < sm.lines.size(); ++li)
+        {
+          const Line& L = sm.lines[li];
+          if(L.in_info || !(L.kind == Line::open || L.kind == Line::closed) || L.tag == "Info") continue;
+          auto dt = decl.find(L.tag);
+          const bool known_tag = (dt != decl.end());
+          const std::string lno = " of <" + L.tag + "> (line " + itos((long long)li + 1) + ")";
+          auto mandatory = [&](const std::string& an) { if(!known_tag) return false; auto a = dt->second.find(an); return a != dt->second.end() && a->second; };
+          // text span of an attribute including one adjacent blank
+          auto cut = [&](std::string& m, const AttrSpan& a) { size_t b = a.nbeg, e = a.vend + 1; if(b > 0 && m[b - 1] == ' ') --b; else if(e < m.size() && m[e] == ' ') ++e; m.erase(b, e - b); };
+          for(size_t ai = 0; ai < L.attrs.size(); ++ai)
+          {
+            const AttrSpan& a = L.attrs[ai];
+            // deletion of one attribute
+            if(c.want())
+            {
+              std::string m = T; cut(m, a);
+              sem(std::string("A attribute-deletion ") + (mandatory(a.name) ? "mandatory" : "optional"), m, mandatory(a.name) ? EX_REJECT : EX_ANY, "attribute '" + a.name + "' removed" + lno);
+            }
+            // deletion of a pair (later one first so that the offsets stay valid)
+            for(size_t aj = ai + 1; aj < L.attrs.size(); ++aj)
+            {
+              if(!c.want()) continue;
+              const AttrSpan& b = L.attrs[aj];
+              std::string m = T; cut(m, b); cut(m, a);
+              const bool mand = mandatory(a.name) || mandatory(b.name);
+              sem(std::string("A attribute-pair-deletion ") + (mand ? "mandatory" : "optional"), m, mand ? EX_REJECT : EX_ANY, "attributes '" + a.name + "' and '" + b.name + "' removed" + lno);
+            }
+            // renamed to an undeclared name sorting before / after all others (alphanumeric: reaches the attribute check;
+            // with an underscore: already a syntax error of the scanner)
+            for(const char* pre : {"a0", "zz", "a_", "zz_"})
+            {
+              if(!c.want()) continue;
+              std::string m = T; m.insert(a.nbeg, pre);
+              sem("A attribute-renamed", m, known_tag ? EX_REJECT : EX_ANY, "attribute '" + a.name + "' renamed to '" + pre + a.name + "'" + lno);
+            }
+            // the value moved to an undeclared attribute in addition to the declared one
+            for(const char* extra : {"a0x", "zzx", "m0x"})
+            {
+              if(!c.want()) continue;
+              std::string m = T; m.insert(a.vend + 1, std::string(" ") + extra + "=\"1\"");
+              sem("A attribute-added", m, known_tag ? EX_REJECT : EX_ANY, std::string("undeclared attribute '") + extra + "' added after '" + a.name + "'" + lno);
+            }
+            // the same attribute given twice (the scanner keeps the first): crash freedom only
+            if(c.want())
+            {
+              std::string m = T; m.insert(a.vend + 1, " " + T.substr(a.nbeg, a.vend + 1 - a.nbeg));
+              sem("A attribute-twice", m, EX_ANY, "attribute '" + a.name + "' given twice" + lno);
+            }
+          }
+          // all attributes removed
+          if(L.attrs.size() > 2 && c.want())
+          {
+            std::string m = T;
+            bool mand = false;
+            for(size_t ai = L.attrs.size(); ai-- > 0;) { cut(m, L.attrs[ai]); mand = mand || mandatory(L.attrs[ai].name); }
+            sem(std::string("A attribute-all-deleted ") + (mand ? "mandatory" : "optional"), m, mand ? EX_REJECT : EX_ANY, "all attributes removed" + lno);
+          }
+          // markups without attributes: an undeclared one added
+          if(L.attrs.empty() && c.want())
+          {
+            std::string m = T; size_t pos = T.find(L.tag, L.beg) + L.tag.size();
+            m.insert(pos, " a0x=\"1\"");
+            sem("A attribute-added", m, known_tag ? EX_REJECT : EX_ANY, "undeclared attribute added" + lno);
+          }
+        }
+      }
       // ---------------------------------------------------------------- S19: comment lines
       for(size_t li = 0; li < sm.lines.size(); ++li)
       {
@@ -1047,6 +1157,52 @@ int main(int argc, char** argv)
           }
         }
       }
+    }
+    // ------------------------------------------------------------------ X: Xml::Scanner attribute grammar
+    {
+      const char* names[4] = {"a", "b", "c", "d"};
+      for(int level = 0; level < 2; ++level)            // 0: the root markup, 1: a child markup
+        for(int dm = 0; dm < 81; ++dm)                  // every name: 0 undeclared, 1 optional, 2 mandatory
+          for(int gm = 0; gm < 16; ++gm)                // given subset
+          {
+            if(!c.want()) continue;
+            std::map<String, bool> decl; std::string ds, gs, tag;
+            bool expect_ok = true;
+            { int t = dm; for(int k = 0; k < 4; ++k) { int st = t % 3; t /= 3; if(st) decl[names[k]] = (st == 2); ds += (st == 0 ? '-' : st == 1 ? 'o' : 'M');
+                const bool given = ((gm >> k) & 1) != 0;
+                if(given) { gs += names[k]; tag += std::string(" ") + names[k] + "=\"v" + names[k] + "\""; }
+                if(given && st == 0) expect_ok = false;
+                if(!given && st == 2) expect_ok = false; } }
+            const std::string text = (level == 0) ? ("<Root" + tag + ">\n</Root>\n") : ("<Root>\n  <Child" + tag + " />\n  <Child" + tag + ">\n  </Child>\n</Root>\n");
+            const std::string key = std::string("scanner-grammar ") + (level == 0 ? "root" : "child") + " declared=" + ds + " given={" + gs + "}";
+            if(!g_log.child) c.desc([&]{ return key + " | text=" + printable(text); });
+            dispatch(c, key, "X", [&]{ return key; }, [&](Verdict& r){
+              ProbeLog log;
+              bool ok = false; std::string what;
+              try { std::istringstream iss(text); Xml::Scanner scanner(iss); scanner.scan(std::make_shared<GrammarProbe>(level == 0 ? decl : std::map<String, bool>(), decl, log)); ok = true; r.kind = K_OK; }
+              catch(const Xml::GrammarError& e) { r.kind = K_GRAMMAR; what = e.what(); }
+              catch(const Xml::Error& e) { r.kind = K_SYNTAX; what = e.what(); }
+              catch(const std::exception& e) { r.kind = K_STD_OTHER; what = e.what(); }
+              r.parses = 1;
+              if(expect_ok && !ok) r.fails.emplace_back("rejected", "all given attributes are declared and all mandatory ones are given, but the scanner refused: " + what);
+              if(!expect_ok && ok) r.fails.emplace_back("accepted", "an undeclared attribute is given or a mandatory one is missing, but the scanner accepted the markup");
+              if(!expect_ok && !ok && r.kind != K_GRAMMAR) r.fails.emplace_back(std::string("wrong exception ") + kind_name(Kind(r.kind)), "expected Xml::GrammarError: " + what);
+              if(expect_ok && ok)
+              {
+                // the parser must have received exactly the given attributes with their values
+                const size_t want_n = (level == 0 ? 1u : 3u);
+                bool good = (log.created.size() == want_n);
+                for(size_t i = (level == 0 ? 0u : 1u); good && i < log.created.size(); ++i)
+                {
+                  size_t cnt = 0;
+                  for(int k = 0; k < 4; ++k) if((gm >> k) & 1) { auto f = log.created[i].find(names[k]); good = good && f != log.created[i].end() && f->second == String("v") + names[k]; ++cnt; }
+                  good = good && log.created[i].size() == cnt;
+                }
+                if(!good) r.fails.emplace_back("attributes", "the parser's create() did not receive exactly the given attributes");
+              }
+            }, Rekey());
+            if(!g_log.child) c.nontrivial(verif::Hash().str("X").pod(level).pod(dm).pod(gm).get());
+          }
     }
     if(g_log.child) { fflush(stdout); _exit(0); }
     if(!g_log.errfile.empty()) unlink(g_log.errfile.c_str());
